@@ -203,6 +203,67 @@ pub fn plan(prop: &str) -> Vec<Item> {
         "C09" => v.extend(prog_threads(3, &["T", "S", "D", "FDa", "FSa"], "pool=1", Some(1), 1, 5, 1)),
         _ => {}
     }
+    // run-on-wake executors (`inl`=1): every awaited task is polled inside its waker, under the task's lock
+    match prop {
+        "C03" | "C06" | "C07" | "C08" => {
+            let kinds: &[&str] = match prop {
+                "C08" => &["FSa"],
+                "C07" => &["FDa"],
+                _ => &["FDa", "FSa"],
+            };
+            v.extend(prog_pairs(kinds, "pool=1,inl=1", false, Some(1), 1, 1));
+            v.extend(prog_pairs(kinds, "pool=0,inl=1", true, Some(1), 1, 1));
+            for pool in [0, 1] {
+                for kind in [0, 1, 2] {
+                    if (prop == "C08") != (kind == 2) && prop != "C03" && prop != "C06" {
+                        continue;
+                    }
+                    v.push(it("wake_ctx", &format!("pool={},kind={},ctx=2,wake=0,inl=1", pool, kind), Some(2), 3));
+                    v.push(it("wake_ctx", &format!("pool={},kind={},ctx=2,wake=1,inl=1", pool, kind), Some(1), 2));
+                }
+            }
+            if prop != "C08" {
+                for pool in [0, 1, 2] {
+                    v.push(it("fd_result", &format!("pool={},mode=0,inl=1", pool), Some(if pool == 2 { 1 } else { 2 }), 3));
+                }
+                v.push(it("fd_result", "pool=0,mode=0,selfwake=1,inl=1", Some(2), 3));
+                v.push(it("fd_result", "pool=1,mode=0,after=1,inl=1", Some(2), 3));
+                for order in [0, 1, 2] {
+                    v.push(it("fd_two", &format!("pool=1,order={},inl=1", order), Some(1), 2));
+                }
+            }
+            if prop == "C08" || prop == "C03" {
+                for shape in [0, 1, 2, 3] {
+                    v.push(it("fs_nested", &format!("pool=1,shape={},inl=1", shape), Some(1), 2));
+                }
+                v.push(it("fs_cancel", "pool=1,mode=4,inl=1", Some(1), 2));
+            }
+        }
+        "C12" => {
+            for (n, d, pat) in [(1, 1, 1), (2, 1, 1), (2, 2, 0), (3, 1, 2)] {
+                v.push(it("pipe_out", &format!("pool=1,n={},d={},pat={},inl=1", n, d, pat), Some(if n <= 2 { 2 } else { 1 }), 3));
+            }
+            v.push(it("pipe_out", "pool=2,n=2,d=1,pat=1,inl=1", Some(1), 2));
+            v.push(it("pipe_partial", "pool=1,d=3,r=1,inl=1", Some(1), 2));
+            v.push(it("pipe_rewake", "pool=1,what=0,inl=1", Some(1), 2));
+        }
+        "C16" => {
+            for pool in [1, 2] {
+                v.push(it("pipe_drop_output", &format!("pool={},mode=5", pool), Some(2), 3));
+            }
+            v.push(it("pipe_drop_output", "pool=1,mode=5,sinpoll=1", Some(1), 2));
+            v.push(it("pipe_drop_output", "pool=1,mode=2,inl=1", Some(2), 3));
+        }
+        "C01" | "C02" => {
+            v.extend(prog_pairs(&["FDa", "FSa"], "pool=1,inl=1", false, Some(0), 1, 2));
+            // stale wakers (thread wakers with no pool thread, queue wakers with one) firing while callers claim the queue
+            for pool in [0, 1] {
+                v.push(it("sync_states", &format!("pool={},st=9,n=2", pool), Some(2), 3));
+                v.push(it("try_paths", &format!("pool={},path=6", pool), Some(2), 3));
+            }
+        }
+        _ => {}
+    }
     // generated programs with a saturated start
     match prop {
         "C01" | "C02" | "C03" | "C04" | "C06" | "C07" | "C08" | "C09" => {
@@ -343,6 +404,9 @@ fn plan_base(prop: &str) -> Vec<Item> {
             for (pool, st, n) in [(0, 4, 1), (0, 0, 2), (0, 2, 1), (1, 4, 1), (0, 5, 1)] {
                 v.push(it("sync_states", &format!("pool={},st={},n={},racer=1", pool, st, n), Some(2), 3));
             }
+            // a sync on a free object while a caller is despawning surplus threads, one of them pinned by another object's job
+            v.push(it("indep_despawn", "pool=2,keep=1,fop=1", Some(2), 3));
+            v.push(it("indep_despawn", "pool=3,keep=2,fop=1", Some(1), 2));
             v.push(it("f3_sync_sync", "pool=0", Some(3), 5));
             v.push(it("fd_result", "pool=0,mode=3", Some(3), 4));
             v.push(it("fd_result", "pool=0,mode=3,k=2", Some(3), 4));
@@ -377,6 +441,9 @@ fn plan_base(prop: &str) -> Vec<Item> {
                 }
             }
             v.push(it("drop_obj", "pool=1,state=1,dropper=5", Some(2), 3));
+            // the owning task's waker panics inside wake() during a poll that runs the queue; the operation stays suspended with the
+            // value borrowed while the task unwinds and drops the last reference (no pool thread: the poll always runs the queue)
+            v.push(it("drop_obj", "pool=0,state=6,dropper=7,selfwake=1", Some(2), 3));
             // the last owner is released inside a task's waker, on the thread that delivers the wake-up
             v.push(it("drop_obj", "pool=1,state=6,dropper=4", Some(2), 3));
             v.push(it("drop_obj", "pool=2,state=6,dropper=4", Some(1), 2));
@@ -547,6 +614,10 @@ fn plan_base(prop: &str) -> Vec<Item> {
                 v.push(it("panic_many", &format!("pool=3,keep={}", keep), Some(1), 2));
             }
             v.push(it("panic_many", "pool=2,keep=1", Some(2), 3));
+            // the maximum is raised by two or more while several objects wait in the schedule and the first of them blocks
+            v.push(it("indep_raise", "pool=1,to=3", Some(2), 3));
+            v.push(it("indep_raise", "pool=0,to=2", Some(2), 3));
+            v.push(it("indep_raise", "pool=1,to=4", Some(0), 1));
             // a caller is despawning surplus threads (one of them pinned) while free objects are used
             v.push(it("indep_despawn", "pool=2,keep=1", Some(2), 3));
             for keep in [0, 1, 2] {
@@ -672,6 +743,7 @@ fn plan_base(prop: &str) -> Vec<Item> {
             }
             v.push(it("panic_contain", "pool=0,ctx=4", Some(2), 3));
             v.push(it("panic_contain", "pool=0,ctx=5", Some(2), 3));
+            v.push(it("panic_contain", "pool=0,ctx=4,revive=1", Some(2), 3));
             for (pool, keep) in [(2, 0), (2, 1), (3, 0), (3, 2)] {
                 v.push(it("panic_many", &format!("pool={},keep={}", pool, keep), Some(1), 2));
             }
@@ -733,6 +805,7 @@ fn plan_base(prop: &str) -> Vec<Item> {
             v.push(it("drop_obj", "pool=1,state=2,dropper=5", Some(2), 3));
             v.push(it("drop_obj", "pool=1,state=3,dropper=6", Some(2), 3));
             v.push(it("drop_obj", "pool=1,state=6,dropper=4", Some(1), 2));
+            v.push(it("drop_obj", "pool=0,state=6,dropper=7,selfwake=1", Some(2), 3));
             v.push(it("fd_result", "pool=1,mode=3,raw=0", Some(2), 2));
             v.push(it("fd_result", "pool=1,mode=1,raw=0", Some(1), 2));
             for mode in 0..4 {
@@ -746,6 +819,8 @@ fn plan_base(prop: &str) -> Vec<Item> {
             v.push(it("panic_contain", "pool=1,ctx=1", Some(1), 2));
             v.push(it("panic_contain", "pool=0,ctx=5", Some(2), 3));
             v.push(it("panic_contain", "pool=0,ctx=4", Some(1), 2));
+            v.push(it("panic_contain", "pool=0,ctx=4,revive=1", Some(2), 3));
+            v.push(it("panic_contain", "pool=1,ctx=4,revive=1", Some(1), 2));
             v.extend(prog_sweep(&[], &[1], Some(1), 2, None, 2));
             v.extend(prog_pairs(&[], "pool=1,busy=1,raw=0", false, None, 1, 1));
             v.extend(prog_sweep(&[], &[0, 2], None, 1, None, 1));
@@ -773,7 +848,7 @@ pub fn owners(scenario: &str, part: &str) -> Vec<&'static str> {
         "fd_result" | "fd_two" => vec!["C07", "C04", "C03"],
         "fs_cancel" | "fs_nested" => vec!["C08"],
         "try_paths" | "f1_try_sync_idle_nonempty" => vec!["C09", "C03"],
-        "indep" | "indep_stale" | "indep_race" | "indep_despawn" => vec!["C10"],
+        "indep" | "indep_stale" | "indep_race" | "indep_despawn" | "indep_raise" => vec!["C10"],
         "drop_obj" => vec!["C05"],
         "suspend" => vec!["C13"],
         "panic_contain" => vec!["C15", "C03"],
@@ -855,6 +930,7 @@ pub fn owners(scenario: &str, part: &str) -> Vec<&'static str> {
         "SUSPEND-EARLY" | "SUSPEND-LEAK" | "SUSPEND-ORDER" | "SUSPEND-CANCELED" => vec!["C13"],
         "PANIC-SILENT" | "PANIC-BLOCKED" | "PANIC-CAPACITY" | "PANIC-LOST" => vec!["C15"],
         "INDEP" => vec!["C10"],
+        "SYNC-STALL" => vec!["C04"],
         "WAKE-LOST" => vec!["C06"],
         // hangs, unplanned panics and harness assertion failures: the scenario's liveness owners
         "DEADLOCK" | "MAXSTEPS" | "MAIN-PANIC" | "PANIC" | "THREAD-PANIC" | "TOO-MANY-THREADS" => liveness.clone(),
